@@ -62,7 +62,7 @@ type ValSpec struct {
 }
 
 func (v ValSpec) MainAddr() common.Address { return Addr(v.Main) }
-func (v ValSpec) MainPub() []byte           { return crypto.CompressPubkey(&v.Main.PublicKey) }
+func (v ValSpec) MainPub() []byte          { return crypto.CompressPubkey(&v.Main.PublicKey) }
 
 type Config struct {
 	Alloc    map[common.Address]*big.Int
@@ -163,6 +163,9 @@ type Built struct {
 	Outcomes   []TxOutcome
 	EndReceipt *types.Receipt // the staking module's end-block receipt
 	Panic      string         // non-empty when EndBlock panicked (block is nil then)
+	StateErr   string         // non-empty when the builder's StateDB recorded an error (e.g. a staking record that cannot be
+	// RLP-encoded): IntermediateRoot then wrote only part of the dirty records, in map order, and the roots in the header are
+	// not reproducible by any other node
 }
 
 // HeadState opens the state of a node's head block (with the head's own staking trie).
@@ -280,6 +283,9 @@ func (w *Work) Finish(slashData []byte) (*Built, error) {
 		return nil, err
 	}
 	res.Block = blk
+	if e := w.State.Error(); e != nil {
+		res.StateErr = e.Error()
+	}
 	return res, nil
 }
 
